@@ -323,13 +323,23 @@ class Unit:
         # assertion is assumed afterwards, so on the same copy it would hide the failure of the contract proper
         self._d_fn1(rest, block, base, tline, False)
         name = [p.strip() for p in rest.split('|')][2]
-        if any(l.strip().startswith('//@callreq ') for _, l in block) and name not in self.quarantine:
-            n_soft, n_rw = len(self.soft_undecided), len(self.rewrites)
-            self._d_fn1(rest, block, base, tline, True)
-            seen = set(x['msg'] for x in self.soft_undecided[:n_soft])
-            self.soft_undecided[n_soft:] = [x for x in self.soft_undecided[n_soft:] if x['msg'] not in seen]
-            seen_rw = set(self.rewrites[:n_rw])
-            self.rewrites[n_rw:] = [x for x in self.rewrites[n_rw:] if x not in seen_rw]
+        crs = [l.strip() for _, l in block if l.strip().startswith('//@callreq ')]
+        if crs and name not in self.quarantine:
+            # one copy per set of properties: within a copy an earlier failed assertion may mask a later one, which is
+            # harmless for the same properties and would hide another property's failure otherwise
+            groups = []
+            for c in crs:
+                lb, pr = parse_label(c)
+                key = ','.join(sorted(pr or []))
+                if key not in groups:
+                    groups.append(key)
+            for gi, key in enumerate(groups):
+                n_soft, n_rw = len(self.soft_undecided), len(self.rewrites)
+                self._d_fn1(rest, block, base, tline, (gi + 1, key))
+                seen = set(x['msg'] for x in self.soft_undecided[:n_soft])
+                self.soft_undecided[n_soft:] = [x for x in self.soft_undecided[n_soft:] if x['msg'] not in seen]
+                seen_rw = set(self.rewrites[:n_rw])
+                self.rewrites[n_rw:] = [x for x in self.rewrites[n_rw:] if x not in seen_rw]
 
     def _d_fn1(self, rest, block, base, tline, sites):
         parts = [p.strip() for p in rest.split('|')]
@@ -376,7 +386,9 @@ class Unit:
                 closures[int(h[8:])] = body
             elif h.startswith('callreq '):
                 if sites:
-                    callreqs.append(h[8:].strip())
+                    _lb, _pr = parse_label(h)
+                    if ','.join(sorted(_pr or [])) == sites[1]:
+                        callreqs.append(h[8:].strip())
             else:
                 raise ExtractError('%s:%d: unknown section %s' % (base, tline, h))
         qual = (container + '::' if container not in ('-', '') else '') + name
@@ -557,7 +569,7 @@ class Unit:
         joint = self.apply_subs(sig_pending + SEP + rendered, subs, where)
         sig_new, rendered = joint.split(SEP)
         if sites:
-            sig_new = re.sub(r'\bfn\s+%s\b' % re.escape(name), 'fn %s__sites' % name, sig_new, count=1)
+            sig_new = re.sub(r'\bfn\s+%s\b' % re.escape(name), 'fn %s__sites%d' % (name, sites[0]), sig_new, count=1)
         if name in self.quarantine:
             # the body is outside what the verifier accepts on this tree: keep signature + contract (callers still
             # verify against it), drop the body; the function itself is reported undecided
@@ -654,7 +666,7 @@ class Unit:
         # the derived impls (Debug, PartialEq, Node, ..) are outside the verified text anyway
         def _drv(m):
             names = [x.strip() for x in m.group(1).split(',') if x.strip()]
-            return m.group(0) if all(x in ('Clone', 'Copy') for x in names) else ''
+            return m.group(0) if all(x in ('Clone', 'Copy', 'PartialEq', 'Eq') for x in names) else ''
         wants_adaptation = any(pat.startswith('#\\[derive') for pat, _r, _c in self._simple_subs(block))
         text2 = re.sub(r'[ \t]*#\[derive\(([^)]*)\)\]\n', _drv, text) if wants_adaptation else text
         if text2 != text:
